@@ -176,6 +176,11 @@ class BandwidthLimitedStream:
             except RequestExceededException as e:
                 self._time_utils.sleep(e.retry_time)
         else:
+            # The transfer failed or was cancelled: make sure a request that
+            # is still scheduled does not keep delaying other transfers.
+            self._leaky_bucket.cancel_scheduled_consumption(
+                self._request_token
+            )
             raise self._transfer_coordinator.exception
 
     def signal_transferring(self):
@@ -275,6 +280,19 @@ class LeakyBucket:
                 )
             else:
                 return self._release_requested_amt(amt, time_now)
+
+    def cancel_scheduled_consumption(self, request_token):
+        """Forget a scheduled request that will never be retried
+
+        :type request_token: RequestToken
+        :param request_token: The token of a request that previously raised a
+            RequestExceededException and whose owner gave up waiting.
+        """
+        with self._lock:
+            if self._consumption_scheduler.is_scheduled(request_token):
+                self._consumption_scheduler.process_scheduled_consumption(
+                    request_token
+                )
 
     def _projected_to_exceed_max_rate(self, amt, time_now):
         projected_rate = self._rate_tracker.get_projected_rate(amt, time_now)
